@@ -1071,6 +1071,12 @@ int KSI_SignatureBuilder_close(KSI_SignatureBuilder *builder, KSI_uint64_t rootL
 		goto cleanup;
 	}
 
+	/* Make sure the builder is in a valid state. */
+	if (builder->sig == NULL) {
+		KSI_pushError(builder->ctx, res = KSI_INVALID_STATE, "The builder has not been correctly initialized.");
+		goto cleanup;
+	}
+
 	res = KSI_VerificationContext_init(&context, builder->ctx);
 	if (res != KSI_OK) {
 		KSI_pushError(builder->ctx, res, NULL);
@@ -1173,6 +1179,12 @@ int KSI_SignatureBuilder_setCalendarHashChain(KSI_SignatureBuilder *builder, KSI
 		goto cleanup;
 	}
 
+	/* Make sure the builder is in a valid state. */
+	if (builder->sig == NULL) {
+		KSI_pushError(builder->ctx, res = KSI_INVALID_STATE, "The builder has not been correctly initialized.");
+		goto cleanup;
+	}
+
 	/* Do not allow overriding of the value, as it is likely an error. */
 	if (builder->sig->calendarChain != NULL) {
 		KSI_pushError(builder->ctx, res = KSI_INVALID_STATE, "The calendar hash chain has already been set.");
@@ -1204,6 +1216,12 @@ int KSI_SignatureBuilder_applyCalendarHashChain(KSI_SignatureBuilder *builder, K
 		goto cleanup;
 	}
 	KSI_ERR_clearErrors(builder->ctx);
+
+	/* Make sure the builder is in a valid state. */
+	if (builder->sig == NULL) {
+		KSI_pushError(builder->ctx, res = KSI_INVALID_STATE, "The builder has not been correctly initialized.");
+		goto cleanup;
+	}
 
 	/* Add the hash chain to the signature. */
 	res = replaceCalendarChain(builder->sig, tmp = KSI_CalendarHashChain_ref(cal));
